@@ -43,8 +43,18 @@ end gather
 
 namespace repeat_interleave
 
-/-- `aten_repeat_interleave_self_int(self, repeats, dim)`: `Unsqueeze(pos_dim+1)`, `Expand` by `repeats` there, then
-`Reshape([Shape[:dim], -1, Shape[pos_dim+1:]])` (`allowzero=0`). -/
+/-- `aten_repeat_interleave_self_int(self, repeats, dim)` (static shapes, after fix 2309579): `Unsqueeze(pos_dim+1)`, `Expand` by
+`repeats` there, then `Reshape(final, allowzero=1)` with `final = static[:pos] ++ [static[pos]·repeats] ++ static[pos+1:]`
+computed at trace time (`static = [prod shape]` when `dim` is omitted). -/
+def staticShape (s : Shape) (dim : Option Int) : Shape :=
+  match dim with | none => [numel s] | some _ => s
+
+def posDim (rk : Nat) (dim : Option Int) : Nat :=
+  ((dim.getD 0 + (rk : Int)) % (rk : Int)).toNat
+
+def final (st : Shape) (pos : Nat) (reps : Int) : List Int :=
+  (st.take pos).map (Int.ofNat ·) ++ [(st.getD pos 0 : Int) * reps] ++ (st.drop (pos + 1)).map (Int.ofNat ·)
+
 def model (s : Shape) (reps : Int) (dim : Option Int) : Option Shape :=
   let flatR := match dim with | none => reshape false s [-1] | some _ => some s
   match flatR with
@@ -53,25 +63,19 @@ def model (s : Shape) (reps : Int) (dim : Option Int) : Option Shape :=
     let r := x.length
     if r = 0 then none        -- `(dim + 0) % 0`: ZeroDivisionError at trace time
     else
-      let d : Int := dim.getD 0
-      let pos := ((d + (r : Int)) % (r : Int)).toNat
-      if reps < 0 then none
+      let pos := posDim r dim
+      if reps < 0 then none   -- Expand by a negative count
       else
         let tiled := x.take (pos + 1) ++ [reps.toNat] ++ x.drop (pos + 1)
-        -- Shape(x, start=0, end=dim) uses the raw (possibly negative) dim: a Python-style slice of the shape
-        let head := sliceShape x 0 d
-        let tail := x.drop (pos + 1)
-        reshape false tiled (head.map (Int.ofNat ·) ++ [-1] ++ tail.map (Int.ofNat ·))
+        reshape true tiled (final (staticShape s dim) pos reps)
 
-def term (r : Nat) (reps : Int) (dim : Option Int) : String :=
+def term (s : Shape) (reps : Int) (dim : Option Int) : String :=
   let x := match dim with | none => tOp "Reshape" ["x0", "[-1]"] [("allowzero", "0")] | some _ => "x0"
-  let rk : Nat := match dim with | none => 1 | some _ => r
-  let d : Int := dim.getD 0
-  let pos := if rk = 0 then 0 else ((d + (rk : Int)) % (rk : Int)).toNat
+  let rk : Nat := match dim with | none => 1 | some _ => s.length
+  let pos := if rk = 0 then 0 else posDim rk dim
   let tiles := (List.replicate (pos + 1) (1 : Int)) ++ [reps] ++ List.replicate (rk - pos - 1) 1
   tOp "Reshape" [tOp "Expand" [tOp "Unsqueeze" [x, tInts [((pos + 1 : Nat) : Int)]], tInts tiles],
-    tOp "Concat" [tOp "Shape" [x] [("end", tI d), ("start", "0")], "[-1]", tOp "Shape" [x] [("start", toString (pos + 1))]]
-      [("axis", "0")]] [("allowzero", "0")]
+    tInts (final (staticShape s dim) pos reps)] [("allowzero", "1")]
 
 /-- `torch.repeat_interleave(x, repeats, dim)`: no dim → flattened, `numel·repeats`; with dim → that axis times `repeats`. -/
 def spec (s : Shape) (reps : Int) (dim : Option Int) : Option Shape :=
@@ -81,7 +85,8 @@ def spec (s : Shape) (reps : Int) (dim : Option Int) : Option Shape :=
   | some d =>
     match torchDim s.length d with
     | none => none
-    | some a => if s.length = 0 then some [reps.toNat] else some (setAt s a (s.getD a 0 * reps.toNat))
+    | some a => if s.length = 0 then none   -- torch: "Dimension out of range" for a 0-d tensor with an explicit dim
+      else some (setAt s a (s.getD a 0 * reps.toNat))
 
 end repeat_interleave
 
